@@ -41,7 +41,7 @@ def add_conflicts(r, sspec, dspec):
     return affected
 
 
-def injected_faults(sc, seed, tier):
+def injected_faults(sc, seed, tier, only=None):
     """the property's own quantifier: one fault (and pairs) at the k-th mutating system call, errno in {EIO, ENOSPC, EACCES, ENOENT}:
     the run under an LD_PRELOAD shim that numbers the mutating libc calls below the scratch root and makes call k fail.
     Judged against the statement: the run ends; exit 0 implies the C01 postcondition; a non-zero exit comes with an error object;
@@ -51,11 +51,11 @@ def injected_faults(sc, seed, tier):
     ok, out = c09.build_shim()
     if not ok:
         return [{"world": "inject", "why": "shim did not build: " + out[-300:]}], stats
-    r = vlib.rng_for(seed, "C10-inject")
     nworlds = 5 if tier == "quick" else 40
     cap = 24 if tier == "quick" else 200
     errnos = [E.EIO, E.ENOSPC, E.EACCES, E.ENOENT]
-    for i in range(nworlds):
+    for i in (range(nworlds) if only is None else [only["index"]]):
+        r = vlib.rng_for(seed, "C10-inject-%d" % i)          # one generator per world: a world can be rebuilt for a replay
         sspec, dspec = ew.gen_world(r, with_big=(i % 2 == 0))
         fl = ew.gen_flags(r, allow_delete=(i % 3 == 2))
         fl["maxerr"] = 100
@@ -74,7 +74,12 @@ def injected_faults(sc, seed, tier):
                 os.remove(log)
             e2 = dict(env); e2.update(extra)
             case, obs, raw = ew.run_once(sc, base + "/src", base + "/dst", fl, ew.Ids(), extra_env=e2)
-            lines = [l.rstrip("\n").split("\t") for l in open(log, errors="replace") if l[:1].isdigit()] if os.path.exists(log) else []
+            lines = {}
+            if os.path.exists(log):
+                for l in open(log, errors="replace"):
+                    if l[:1].isdigit():
+                        t = l.rstrip("\n").split("\t")
+                        lines[int(t[0])] = t                 # by call number: with several workers the lines are not in order
             kv = dict(x.split("=", 1) for x in obs.split(" "))
             raw["nerr"] = int(kv["nerr"]); raw["refused"] = kv["refused"] == "1"
             return raw, lines
@@ -82,22 +87,25 @@ def injected_faults(sc, seed, tier):
         if raw0["rc"] != 0 or not calls or raw0["refused"]:
             continue
         stats["worlds"] += 1
-        ks = list(range(1, len(calls) + 1))
+        ncalls = max(calls) if calls else 0
+        ks = list(range(1, ncalls + 1))
         if len(ks) > cap:
             ks = sorted(r.sample(ks, cap))
         plans = [((k,), errnos[(k + i) % 4]) for k in ks]
-        if len(calls) >= 2:
+        if only is not None:
+            plans = [(tuple(only["fail_at"]), getattr(E, only["errno"]))]
+        if ncalls >= 2:
             for _ in range(3 if tier == "quick" else 20):
-                a, b = sorted(r.sample(range(1, len(calls) + 1), 2))
+                a, b = sorted(r.sample(range(1, ncalls + 1), 2))
                 plans.append(((a, b), r.choice(errnos)))
         for kk, en in plans:
             raw, lines = one({"SY_FAIL_AT": ",".join(map(str, kk)), "SY_FAIL_ERRNO": str(en)})
             stats["runs"] += 1; stats["pairs"] += 1 if len(kk) == 2 else 0
             stats["by_errno"][E.errorcode[en]] = stats["by_errno"].get(E.errorcode[en], 0) + 1
-            hit = [lines[k - 1] for k in kk if len(lines) >= k]
+            hit = [lines[k] for k in kk if k in lines]
             for h in hit:
                 stats["by_call"][h[1]] = stats["by_call"].get(h[1], 0) + 1
-            ident = {"world": "inject-%d" % i, "flags": fl, "fail_at": list(kk), "errno": E.errorcode[en], "failed_calls": [h[1:4] for h in hit], "seed": seed}
+            ident = {"world": "inject-%d" % i, "index": i, "tier": tier, "flags": fl, "fail_at": list(kk), "errno": E.errorcode[en], "failed_calls": [h[1:4] for h in hit], "seed": seed}
             if raw.get("timeout"):
                 viol.append(dict(ident, why="the run did not end after the injected fault")); continue
             if raw["rc"] != 0:
@@ -233,4 +241,11 @@ def run(tier, seed):
 
 
 def replay(path):
+    d = json.load(open(path))
+    if str(d.get("world", "")).startswith("inject-"):
+        vlib.build_impl()
+        with vlib.Scratch() as sc:
+            viol, stats = injected_faults(sc, d["seed"], d.get("tier", "quick"), only=d)
+        print(json.dumps({"replayed": d["world"], "fail_at": d["fail_at"], "errno": d["errno"], "violations": viol, "stats": stats}, indent=1)[:4000])
+        return 1 if viol else 0
     return c01.replay(path)
